@@ -32,7 +32,8 @@ FIELDS = {
     OrderBook: ["priority_queue", "is_buy", "time", "expire_time_list", "logger"],
     Market: ["market_id", "_is_running", "time", "tick_size", "name", "buy_order_book", "sell_order_book",
              "outstanding_shares", "_next_order_id", "_n_buy_orders", "_n_sell_orders", "_mid_prices", "_market_prices",
-             "_last_executed_prices", "_executed_volumes", "_executed_total_prices", "logger"],
+             "_last_executed_prices", "_executed_volumes", "_executed_total_prices", "logger", "chunk_size",
+             "_fundamental_prices"],
     IndexMarket: ["market_id", "_is_running", "time", "tick_size", "name", "_components", "outstanding_shares"],
     PriceLimitRule: ["target_markets", "trigger_change_rate", "activation_count", "is_enabled"],
     TradingHaltRule: ["target_markets", "trigger_change_rate", "activation_count", "halting_time_started",
@@ -511,6 +512,11 @@ def gen_marketop_cases(rng, n):
         elif r < 0.5 and placed:
             c = Cancel(order=rng.choice(placed))
             yield Case("Market._cancel_order", m._cancel_order, [m, c], ret_log="CancelLog")
+        elif r < 0.58:
+            yield Case("Market._update_time", m._update_time, [m, float(rng.choice([100.0, 99.5, 101.25]))])
+        elif r < 0.64:
+            m.chunk_size = rng.choice([100, 4, 7])
+            yield Case("Market._fill_until", m._fill_until, [m, rng.choice([m.time + 1, 99, 100, 150, 203])])
         elif r < 0.8:
             yield Case("Market._execution", m._execution, [m], ret_log="ExecutionLog",
                        ext=[(m.sell_order_book, "get_price_volume", [], m.sell_order_book.get_price_volume()),
